@@ -910,6 +910,17 @@ class C12(L1Prop):
             ops += ["http@0 POST as hyph=latest:1 hyph=1 snapshot b:8", "backdate 1 90000", "dump 1", "http@0 POST av hyph=latest:1 hyph=1 history b:4", "dump 1",
                     "backdate 1 180000", "dump 1", "http@0 POST av hyph=latest:1 hyph=1 history b:5", "dump 1", "kill"]
             out.append(Case(f"c12-bin-{j}", ops, {"cfg": [d, v], "http": True, "only": "sqlite"}, mode="bin")); k += 1
+        # another instance (another replica's request) stores a snapshot for the latest version right before the
+        # N-th transaction of an add-version request begins (N = 0, 1, 2): the urgency the request is told is the
+        # one of the record it was accepted against
+        for k3 in range(sizes(tier, 9, 27)):
+            nth, d, v = k3 % 3, [14, 14, 1][k3 // 3 % 3], [100, 2, 3][k3 // 3 % 3]
+            ops = [f"cfg {d} {v}", "http POST av hyph=nil hyph=1 history b:1", "http POST av hyph=latest:1 hyph=1 history b:2", "http POST av hyph=latest:1 hyph=1 history b:3"]
+            if k3 % 2:
+                ops += ["http POST as hyph=anc:1:2 hyph=1 snapshot b:8", "backdate 1 4000000"]
+            ops += [f"intrude {nth} 1 snap latest:1 b:9,{k3}", f"http POST av hyph=latest:1 hyph=1 history b:4,{k3}", "dump 1",
+                    "http POST av hyph=latest:1 hyph=1 history b:5", "dump 1"]
+            out.append(Case(f"c12-intrude-{k3}", ops, {"cfg": [d, v], "http": True, "intrude": True}, mode="http"))
         # a data directory written by the pinned release: the age and the counter of a snapshot IT stored are
         # what the urgency of the next accepted versions is computed from
         def tail(name, c, nacc, snap, o):
@@ -977,6 +988,15 @@ class C12(L1Prop):
                     fails.append(f"op {i}: urgency {added_urgency(ri)}, expected {want}: the pinned release stored snapshot record {s0} for client {op.c} "
                                  f"(fixture `{case.meta['fixture']}`), {n0} versions were accepted since, targets days={d} versions={v}, now {op.now}")
                 since_fixture[op.c] = n0 + 1
+            if case.meta.get("intrude") and op.kind == "av" and resp_kind(ri) == "added" and i > 0 and trace[i - 1][0].startswith(f"as {op.c} "):
+                # the snapshot the other instance stored just before: the version was accepted against THAT record
+                a_s = Op(trace[i - 1][0])
+                if resp_kind(trace[i - 1][1]) == "snapack":
+                    rec = (a_s.v, a_s.now, 0)
+                    want, want2 = spec_urgency(d, v, rec, op.now), spec_urgency(d, v, rec, op.now + 3)
+                    if added_urgency(ri) not in (want, want2):
+                        fails.append(f"op {i}: urgency {added_urgency(ri)}, expected {want}: a snapshot for version {a_s.v} was stored (by another instance) before this "
+                                     f"version was accepted — the record it was accepted against is {rec}, targets days={d} versions={v}")
             if op.kind == "av" and i > 0 and trace[i - 1][0].startswith(f"dump {op.c} "):
                 before = Dump(trace[i - 1][1])
                 if resp_kind(ri) == "panic":
